@@ -96,7 +96,21 @@ func (r *ring) currentHosts() map[string]*HostInfo {
 
 func (r *ring) addOrUpdate(host *HostInfo) *HostInfo {
 	if existingHost, ok := r.addHostIfMissing(host); ok {
+		before := existingHost.nodeToNodeAddress().String()
 		existingHost.update(host)
+		if after := existingHost.nodeToNodeAddress().String(); after != before {
+			// update filled in an address that takes precedence (broadcast_address
+			// over peer): file the host under the address it now reports
+			hostID := existingHost.HostID()
+			r.mu.Lock()
+			if r.hosts[hostID] == existingHost {
+				if r.hostIPToUUID[before] == hostID {
+					delete(r.hostIPToUUID, before)
+				}
+				r.hostIPToUUID[after] = hostID
+			}
+			r.mu.Unlock()
+		}
 		host = existingHost
 	}
 	return host
